@@ -372,9 +372,16 @@ pub fn build_real(m: &RefArchive, rng: &mut Rng) -> Result<BinArchive, String> {
     for k in m.cstr.keys() {
         ops.push(Op::CStr(*k));
     }
+    // most buckets are built one write_label at a time; some through the bulk call write_labels,
+    // which REPLACES whatever the address carried (so junk written before it must vanish)
+    let mut bulk: Vec<usize> = Vec::new();
     for (k, v) in &m.labels {
-        for _ in 0..v.len() {
-            ops.push(Op::Label(*k));
+        if rng.chance(1, 5) {
+            bulk.push(*k);
+        } else {
+            for _ in 0..v.len() {
+                ops.push(Op::Label(*k));
+            }
         }
     }
     rng.shuffle(&mut ops);
@@ -416,6 +423,12 @@ pub fn build_real(m: &RefArchive, rng: &mut Rng) -> Result<BinArchive, String> {
             }
         };
         r.map_err(|e| format!("building archive through the API failed: {}", e))?;
+    }
+    for k in bulk {
+        if rng.bool() {
+            a.write_label(k, "junk_to_be_replaced").map_err(|e| format!("building archive through the API failed: {}", e))?;
+        }
+        a.write_labels(k, m.labels[&k].clone()).map_err(|e| format!("building archive through the API failed: {}", e))?;
     }
     Ok(a)
 }
